@@ -233,16 +233,16 @@ package jet
 //@   props C10 C07
 //@   nocrash
 //@ func indexArg
-//@   props C10 C07
-//@   nocrash
+//@   props C10 C07 C06 C12
+//@   ensures [index-is-in-range-or-an-error] result1 == nil ==> 0 <= result0 && result0 < cap
 //@ func buildCache
 //@   props C10
 //@   nocrash
 //@   modifies map cache
 //@   loop 0 invariant true
 //@ func resolveIndex
-//@   props C10 C11
-//@   nocrash
+//@   props C10 C11 C06 C12
+//@   requires cachedStructsFieldIndex != nil
 //@   modifies mapsof map[reflect.Type]map[string][]int, global cachedStructsFieldIndex, ghost Held
 //@   ensures [lock-released] Held == old(Held)
 //@   loop 0 invariant true
